@@ -12,7 +12,7 @@ REG = {
  "C11": ("db+outstation", "Coq theorems over the static-database model (selection snapshots, series_exactly_once, snapshot under interleaved updates, write progress); session level: series shape (FIR/FIN/CON/sequence/confirm gating) checked on implementation traces and against the session model"),
  "C13": ("db+outstation", "Coq theorems: counters_exact / class_bits_exact / no_underflow / overflow_flag_history over arbitrary op lists; session level: every IIN bit of every response checked against the database's answer, the restart/broadcast history and the application's answer"),
  "C18": ("tsync", "Coq theorems (exact, zero slack): LAN error = forward delay of the record-time request, non-LAN error <= half the asymmetry for every honestly reported processing delay, failure whenever the procedure must fail, 48-bit bounds; a real master task and a real outstation task joined by a scripted channel compared with the model line by line"),
- "C20": ("ffi", "Coq theorems over tables regenerated from the binding crate's source: every enum arm maps to its namesake (or a pinned, justified fallback), one-to-one tables bijective, struct fields from namesake accessors; database operations through the binding compared with the native API"),
+ "C20": ("ffi", "Coq theorems over tables regenerated from the binding crate's source: every enum arm maps to its namesake (or a pinned, justified fallback), one-to-one tables bijective, struct fields from namesake accessors, configuration fields from namesake accessors through a reviewed wrapper of a closed vocabulary; database operations through the binding compared with the native API; configuration conversions executed on boundary values and compared field by field with the documented reading of each field"),
  "C04": ("outstation", "Coq theorems over the session model: a select-before-operate callback needs a matching, adjacent, fresh select (one-step characterisation + history invariant + trace theorem), rejected operates echo a non-success status, select-then-operate executes exactly once; histories checked on the implementation and against the model"),
  "C05": ("outstation", "Coq theorems over the session model: a repeated non-READ is never re-executed, the stored response stays coherent with the transmit buffer (the invariant the two repaired defects broke), every re-sent fragment equals an earlier one; histories checked on the implementation and against the model"),
  "C12": ("outstation", "Coq theorems over the session model: shape and correlation of every transmitted fragment, unsolicited numbering, no reply to no-ack functions and broadcasts, rejections reported in IIN2, size bound and echo well-formedness; histories over every function code checked on the implementation and against the model"),
@@ -33,7 +33,7 @@ def main():
         checks.append({"property_id": pid, "quick_cmd": "./check %s quick" % pid, "thorough_cmd": "./check %s thorough" % pid,
             "evidence_file": "evidence/%s.json" % pid, "replay_cmd_template": "./check %s --replay {path}" % pid, "engine": eng,
             "level_claimed": {"category": "proof", "text": text, "design_ref": "DESIGN.md section 6, " + pid},
-            "level_note": "trusted: Coq 8.16.1 kernel + vm_compute; translators tools/gen/*.py; extraction (ExtrOcamlBasic only); the Rust harness compiled into the crate's test build (hooks H1,H2,H4,H5,H6,H7); hand-written models are tied to the code by differential execution, by tables regenerated from the source on every run with agreement theorems (gen_session_tables, gen_master_tables, gen_variations, gen_qualifiers, gen_functions, gen_conversions, gen_ffi, gen_link, gen_panic_sites) and, for the extraction, by an in-Coq vm_compute cross-check on a sample of every run; see DESIGN.md sections 8 and 9",
+            "level_note": "trusted: Coq 8.16.1 kernel + vm_compute; translators tools/gen/*.py; extraction (ExtrOcamlBasic only); the Rust harness compiled into the crate's test build (hooks H1,H2,H4,H5,H6,H7,H8); hand-written models are tied to the code by differential execution, by tables regenerated from the source on every run with agreement theorems (gen_session_tables, gen_master_tables, gen_variations, gen_qualifiers, gen_functions, gen_conversions, gen_ffi, gen_link, gen_panic_sites) and, for the extraction, by an in-Coq vm_compute cross-check on a sample of every run; see DESIGN.md sections 8 and 9",
             "technique": "machine-checked proof in Coq over an executable model + model/implementation correspondence (differential execution) + direct oracle on implementation traces"})
     m["checks"] = checks
     hooks = os.popen("git -C /repo log --format='%h %s' | grep 'verif hook' | awk '{print $1}'").read().split()
